@@ -287,7 +287,7 @@ func (st *State) bruteForce(rel, extra []*Term, wantModel bool) (SatResult, Mode
 			vs = append(vs, v)
 		}
 	}
-	if bits > 16 || len(vs) != len(ids) {
+	if bits > 10 || len(vs) != len(ids) {
 		return 0, nil, false
 	}
 	m := Model{}
@@ -579,6 +579,7 @@ type Job struct {
 	forkSites       map[string]int
 	noSlicing       bool
 	brute           int
+	labels          []string
 	solveTime       time.Duration
 	inconclusive    []string
 	stopped         bool
@@ -623,7 +624,9 @@ func (st *State) finishPath(k endKind, msg string) {
 	}
 	switch k {
 	case endPanic:
-		st.recordViolation("panic", "panic", msg)
+		if j.labelActive("panic") {
+			st.recordViolation("panic", "panic", msg)
+		}
 	case endUnsupported:
 		if len(j.inconclusive) < 20 {
 			j.inconclusive = append(j.inconclusive, "unsupported: "+msg)
